@@ -237,6 +237,9 @@ func TestWorker(t *testing.T) {
 			k += job.Stride
 		}
 		c := GenCase(job.Prop, seed, job.Thorough)
+		if job.Thorough && c.MaxSteps == 0 {
+			c.MaxSteps = 40_000_000 // longer programs: fewer runs end inconclusive at the step bound
+		}
 		// thorough: for a sample of programs enumerate the fault position over
 		// (a stride of) every storage event index of the fault-free run
 		enumerated := false
